@@ -40,14 +40,24 @@ Chunk(q, from, n) == SubSeq(q, from + 1, from + n)
 DirectTo(out, x) == SelectSeq(out, LAMBDA m : m.to = x /\ m.k # "r")
 RelayTo(out, x) == SelectSeq(out, LAMBDA m : m.to = x /\ m.k = "r")
 
+(* A receiver whose session ends in this round may lose the tail of what was queued for it: lines *)
+(* put into its queue after its task drained it for the last time are never written.  For such a   *)
+(* receiver the recorded relay stream of each sender need only be a prefix of the expected one.    *)
+EndsHere(x) == x \in DOMAIN R0.pre.conns /\ x \notin DOMAIN R0.post.conns
+IsSubBag(a, b) == \A e \in DOMAIN a : e \in DOMAIN b /\ a[e] <= b[e]
+TakeN(x, c, rl) == IF EndsHere(x) /\ Len(R0.relay[x][c]) - rpos[x][c] < Len(rl)
+                  THEN Len(R0.relay[x][c]) - rpos[x][c] ELSE Len(rl)
+
 Explains(c, out) ==
     \A x \in ConnsOf(R0) :
        LET d == DirectTo(out, x)
            rl == RelayTo(out, x)
        IN /\ dpos[x] + Len(d) <= Len(R0.direct[x])
           /\ BagOf(Chunk(R0.direct[x], dpos[x], Len(d))) = BagOf(d)
-          /\ rpos[x][c] + Len(rl) <= Len(R0.relay[x][c])
-          /\ BagOf(Chunk(R0.relay[x][c], rpos[x][c], Len(rl))) = BagOf(rl)
+          /\ IF EndsHere(x)
+             THEN IsSubBag(BagOf(Chunk(R0.relay[x][c], rpos[x][c], TakeN(x, c, rl))), BagOf(rl))
+             ELSE /\ rpos[x][c] + Len(rl) <= Len(R0.relay[x][c])
+                  /\ BagOf(Chunk(R0.relay[x][c], rpos[x][c], Len(rl))) = BagOf(rl)
 
 (* KILL takes effect in two steps, as in the code: the operator's command only signals the *)
 (* victim's connection; the victim's own task later sends the ERROR and ends the session.  *)
@@ -71,7 +81,7 @@ StepOf(c) ==
             /\ Explains(c, R.out)
             /\ pos' = [pos EXCEPT ![c] = @ + 1]
             /\ dpos' = [x \in ConnsOf(R0) |-> dpos[x] + Len(DirectTo(R.out, x))]
-            /\ rpos' = [x \in ConnsOf(R0) |-> [rpos[x] EXCEPT ![c] = @ + Len(RelayTo(R.out, x))]]
+            /\ rpos' = [x \in ConnsOf(R0) |-> [rpos[x] EXCEPT ![c] = @ + TakeN(x, c, RelayTo(R.out, x))]]
             /\ T' = R.st
             /\ UNCHANGED pk
     /\ UNCHANGED <<rd, i>>
